@@ -177,7 +177,7 @@ PROPS["C11"] = dict(
           "themes with short walks, terminal and clock>=99 positions with budgets far beyond 65536 polls; sub-strata "
           "with a non-empty ThreeFold history and positional evaluation; distinct_nontrivial = distinct positions "
           "searched (each with its whole k sweep)"),
-    floor=dict(any={"evaluations": 20000, "k-sweep-exhaustive-to-T2": 20, "terminal-position": 2, "traced-searches": 500, "traced-log-bytes": 1000000,
+    floor=dict(any={"evaluations": 20000, "k-sweep-exhaustive-to-T2": 20, "terminal-position": 2, "traced-searches": 500, "traced-log-bytes": 1000000, "engine-reuse-searches": 2000,
                     "long-run-on-trivial-passes": 5, "non-empty-threefold-history": 10,
                     "expiry-phase:pass0:captures:in-recursion": 50, "expiry-phase:pass0:quiets:root-level": 50,
                     "expiry-phase:pass1:prev-best:in-recursion": 50, "expiry-phase:pass2:quiets:in-recursion": 50,
@@ -198,7 +198,7 @@ PROPS["C12"] = dict(
           "promotion / other random placements with short walks steered towards mates, 16 classic mates and their "
           "mirrors, corpus; default and positional engines; distinct_nontrivial = distinct positions that have a mate "
           "in one"),
-    floor=dict(any={"evaluations": 3000, "mate-in-one-positions-judged": 150, "mating-moves:1": 50, "mating-moves:>1": 50,
+    floor=dict(any={"evaluations": 3000, "mate-in-one-positions-judged": 150, "mating-moves:1": 50, "mating-moves:>1": 50, "engine-reuse-mate-lines": 200,
                     "mating-capture": 20, "near-miss:check-but-no-mate": 500, "mate-in-one-claims": 150}),
     watchdog=dict(quick=1200, thorough=10800),
     assumptions=[MODEL_ASSUMPTION, CHK_ASSUMPTION, HOOK_ASSUMPTION],
@@ -441,7 +441,7 @@ PROPS["C15"] = dict(
           "broken by a lost castling right / an e.p. marker, seeded histories biased to reversible shuffles (10-1200 "
           "calls), several engines of one library interleaved; failing histories are shrunk; distinct_nontrivial = "
           "distinct call histories"),
-    floor=dict(any={"evaluations": 3000, "occurrence:3rd": 2000, "occurrence:4th": 500, "call:make_move-illegal": 5000,
+    floor=dict(any={"evaluations": 3000, "occurrence:3rd": 2000, "occurrence:4th": 500, "call:make_move-illegal": 5000, "histories:self-play": 200, "self-play:move-played": 1000,
                     "call:evaluate": 1000, "call:set_board": 2000, "histories:interleaved-engines": 500,
                     "histories:knight-shuffle": 8}),
     watchdog=dict(quick=900, thorough=7200),
